@@ -281,8 +281,10 @@ def pn_of(x):
 
 
 def jv_of(d):
-    """canonical wire form of a real dictionary (key order kept; an `instance` dictionary is read by keyword, its
-    fields and arguments are written from a set: put in a fixed order)"""
+    """canonical wire form of a real dictionary. The entries of an `arguments` dictionary keep their order (it is
+    the order in which the reader meets the parameters); the fields of a typed dictionary (`type`, `class_path`,
+    `assertions`, `arguments`, limits ...) are read by key: sorted. An `instance` dictionary is built by keyword
+    from a set of argument names: its arguments are sorted too."""
     if d is None or isinstance(d, bool):
         return d
     if isinstance(d, (np.floating, np.integer, np.bool_)):
@@ -296,11 +298,28 @@ def jv_of(d):
     if isinstance(d, (list, tuple)):
         return [jv_of(v) for v in d]
     if isinstance(d, dict):
-        if d.get("type") == "instance" and set(d) == {"type", "class_path", "arguments"} and isinstance(d["arguments"], dict):
-            return {"o": [["class_path", jv_of(d["class_path"])], ["type", jv_of("instance")],
-                          ["arguments", {"o": sorted([str(k), jv_of(v)] for k, v in d["arguments"].items())}]]}
-        return {"o": [[str(k), jv_of(v)] for k, v in d.items()]}
+        return canon_fields({"o": [[str(k), jv_of(v)] for k, v in d.items()]})
     raise Unsupported(type(d).__name__)
+
+
+def canon_fields(j):
+    """field order of one typed dictionary in wire form (see `jv_of`)"""
+    fields = j["o"]
+    keys = [k for k, _ in fields]
+    if "type" in keys and isinstance(dict(fields)["type"], dict) and "s" in dict(fields)["type"]:
+        if dict(fields)["type"] == {"s": "instance"}:
+            fields = [[k, ({"o": sorted(v["o"])} if k == "arguments" and isinstance(v, dict) and "o" in v else v)] for k, v in fields]
+        fields = sorted(fields, key=lambda kv: kv[0])
+    return {"o": fields}
+
+
+def canon_answer(j):
+    """the same canonical field order for a dictionary answered by the model"""
+    if isinstance(j, list):
+        return [canon_answer(v) for v in j]
+    if isinstance(j, dict) and "o" in j:
+        return canon_fields({"o": [[k, canon_answer(v)] for k, v in j["o"]]})
+    return j
 
 
 def _prior_ids(d, out):
@@ -375,18 +394,6 @@ def class_defaults():
     return _defaults
 
 
-def resort_instances(j):
-    """an `instance` dictionary is read by keyword: its arguments in a fixed order (wire form of the model's answer)"""
-    if isinstance(j, list):
-        return [resort_instances(v) for v in j]
-    if isinstance(j, dict) and "o" in j:
-        fields = [[k, resort_instances(v)] for k, v in j["o"]]
-        if ["type", {"s": "instance"}] in fields:
-            fields = [[k, ({"o": sorted(v["o"])} if k == "arguments" else v)] for k, v in fields]
-        return {"o": fields}
-    return j
-
-
 def report_of(r):
     ids = sorted({p.id for p in r.priors})
     rank = {i: k for k, i in enumerate(ids)}
@@ -415,8 +422,8 @@ def dictform_clauses(ctx, model, case):
         ctx.disagree("driver", c, None, ans)
         return
     ctx.hit("dictform:todict")
-    if ans["dict"] != real_jv:
-        ctx.disagree("C08.dictform.writer", c, first_diff(real_jv, ans["dict"]), "model.dict() differs from the modelled dictionary")
+    if canon_answer(ans["dict"]) != real_jv:
+        ctx.disagree("C08.dictform.writer", c, first_diff(real_jv, canon_answer(ans["dict"])), "model.dict() differs from the modelled dictionary")
     try:
         r = af.AbstractPriorModel.from_dict(json.loads(text))
         rep = report_of(r)
@@ -442,8 +449,8 @@ def dictform_clauses(ctx, model, case):
                              got[k][:8] if isinstance(got[k], list) else got[k])
                 break
         else:
-            if resort_instances(got["redict"]) != want["redict"]:
-                ctx.disagree(f"C08.dictform.{who}.redict", c, first_diff(want["redict"], resort_instances(got["redict"])), "dictionary of the reloaded model differs")
+            if canon_answer(got["redict"]) != want["redict"]:
+                ctx.disagree(f"C08.dictform.{who}.redict", c, first_diff(want["redict"], canon_answer(got["redict"])), "dictionary of the reloaded model differs")
 
 
 def one_case(ctx, prog, label="gen"):
